@@ -244,6 +244,10 @@ func checkStructure(c *mon.Ctx, stage string, idx int64, hr *HistRun) {
 				c.Violate("C04/nonconformant-packet:"+cl.Op.Kind, stage, idx, fmt.Sprintf("call %d (%s), packet at offset %d: %v\n%x", k, cl.Op.Kind, o, err, hr.Out[o:o+188]), data)
 				return
 			}
+			if !p.Header.HasPayload && p.Header.PayloadUnitStartIndicator && cl.Op.Kind != "packet" {
+				c.Violate("C04/payload-unit-start-on-packet-without-payload", stage, idx, fmt.Sprintf("call %d (%s), packet at offset %d: payload_unit_start_indicator is set on an adaptation-only packet (no unit starts there)", k, cl.Op.Kind, o), data)
+				return
+			}
 			pk = append(pk, p)
 		}
 		switch cl.Op.Kind {
